@@ -221,6 +221,7 @@ def classes():
 
 
 def prepare(tier):  # pylint: disable=unused-argument
+    corpus.warm_variants()
     classes()
     return None
 
@@ -289,7 +290,7 @@ def _rand_index(rng, length):
 def _rand_slice(rng, length):
     def edge():
         return rng.choice((None, 0, 1, -1, length, length + 2, rng.randrange(-length - 1, length + 2) if length else 0))
-    step = rng.choice((None, None, None, 1, 2, -1))
+    step = rng.choice((None, None, None, 1, 2, 2, -1, 3, -2))
     return [edge(), edge(), step]
 
 
@@ -330,12 +331,22 @@ def generate(rng, index, tier, extra):  # pylint: disable=unused-argument
             ops.append({'op': op, 'at': _rand_index(rng, length), 'item': item})
         elif op == 'setslice':
             count = rng.choice((0, 1, 2, 3))
-            ops.append({'op': op, 'slice': _rand_slice(rng, length), 'items': [rng.randrange(pool_n) for _ in range(count)]})
+            bounds = _rand_slice(rng, length)
+            if bounds[2] not in (None, 1) and rng.random() < 0.8:
+                # an extended slice only takes as many items as it has positions (tracked length; a guess when
+                # earlier edits were refused)
+                count = len(range(*slice(*bounds).indices(length)))
+            ops.append({'op': op, 'slice': bounds, 'items': [rng.randrange(pool_n) for _ in range(count)]})
+            if bounds[2] in (None, 1):
+                span = len(range(*slice(*bounds).indices(length)))
+                length = max(0, length - span + count)
         else:
             ops.append({'op': op})
             if op == 'clear':
                 length = 0
     for op in ops:
+        if 'items' in op and rng.random() < 0.3:
+            op['as'] = rng.choice(('tuple', 'iter', 'gen'))
         if 'at' in op and rng.random() < 0.05:
             op['at'] = {'bad': rng.choice(sorted(BAD_POSITIONS))}
     twin = rng.random() < 0.25
@@ -358,6 +369,20 @@ def _position(op):
     return BAD_POSITIONS[at['bad']] if isinstance(at, dict) else at
 
 
+def _operand(op, pool):
+    """The items of a bulk operation, handed over the way the schedule says: a list, a tuple, or a one-shot
+    iterable (generator / iterator), which a plain list accepts just the same."""
+    items = [pool[i] for i in op['items']]
+    how = op.get('as', 'list')
+    if how == 'tuple':
+        return tuple(items)
+    if how == 'iter':
+        return iter(items)
+    if how == 'gen':
+        return (item for item in items)
+    return items
+
+
 def _apply(target, op, pool):
     kind = op['op']
     if kind == 'append':
@@ -365,9 +390,9 @@ def _apply(target, op, pool):
     if kind == 'insert':
         return target.insert(_position(op), pool[op['item']])
     if kind == 'extend':
-        return target.extend([pool[i] for i in op['items']])
+        return target.extend(_operand(op, pool))
     if kind == 'iadd':
-        target += [pool[i] for i in op['items']]
+        target += _operand(op, pool)
         return None
     if kind == 'pop':
         return target.pop()
@@ -385,7 +410,7 @@ def _apply(target, op, pool):
         target[_position(op)] = pool[op['item']]
         return None
     if kind == 'setslice':
-        target[slice(*op['slice'])] = [pool[i] for i in op['items']]
+        target[slice(*op['slice'])] = _operand(op, pool)
         return None
     if kind == 'reverse':
         return target.reverse()
